@@ -43,10 +43,10 @@ FAMILIES = {
 }
 
 NEGATIVE_CONTROLS = [
-    ("NC_OrderFree", "P5: set order + sort by start only makes the greedy passes order-dependent"),
+    ("NC_OrderFree", "P5 (design before fix 8cd6c2be): set order + sort by start only makes the greedy passes order-dependent"),
     ("NC_ChainJustified", "P14: chained replacement drops a hit whose replacer is itself dropped"),
     ("NC_MergeSpans", "P24: a merge that takes the other fragment's end does not span its fragments"),
-    ("NC_AllChainsKept", "P26: only the last merge chain of a profile survives in default mode"),
+    ("NC_AllChainsKept", "N1: only the last merged domain of a profile survives in default mode"),
 ]
 
 
